@@ -130,6 +130,50 @@ INVALID = [
 ]
 
 
+# every way SVG lets a number be written (leading '.', explicit '+', trailing '.', exponents)
+SPELLED = [(".5", 0.5), ("-.25", -0.25), ("+3", 3), ("5.", 5), ("1e1", 10), ("2.5E+1", 25),
+           ("1e-1", 0.1), ("+.5e1", 5), ("-0", 0), ("00012.50", 12.5), ("4E0", 4)]
+
+
+def check_spelled(tokens, doc, par):
+    """tokens: four (text, value) pairs; the result must be that of the canonical spelling."""
+    plot_utils = _lib()
+    text = " ".join(t for t, _v in tokens)
+    vbox = tuple(v for _t, v in tokens)
+    desc = f"vb_scale({text!r}, {par!r}, {doc[0]!r}, {doc[1]!r})"
+    try:
+        cond = conditioning_call(plot_utils)
+        got = plot_utils.vb_scale(text, par, doc[0], doc[1])
+        want = plot_utils.vb_scale(vb_text(vbox, "space"), par, doc[0], doc[1])
+    except Exception as exc:                # pylint: disable=broad-except
+        return [("raise", f"{desc} raised {type(exc).__name__}: {exc}")]
+    if cond:
+        return [("conditioning", cond)]
+    if tuple(got) != tuple(want):
+        return [("spelling", f"{desc} = {tuple(got)!r}, but the same numbers written "
+                 f"{vb_text(vbox, 'space')!r} give {tuple(want)!r}")]
+    if vbox[2] > 0 and vbox[3] > 0 and tuple(got) == IDENT and \
+            (vbox[0], vbox[1], vbox[2], vbox[3]) != (0, 0, doc[0], doc[1]):
+        return [("spelling", f"{desc} = identity for a valid viewBox")]
+    return []
+
+
+def _spelled_chunk(firsts):
+    part = core.Part()
+    for first in firsts:
+        for second in SPELLED[::3]:
+            for width, height in itertools.product([s for s in SPELLED if s[1] > 0][::2], repeat=2):
+                for par in (None, "xMaxYMin slice", "none"):
+                    tokens = (first, second, width, height)
+                    for clause, msg in check_spelled(tokens, (100, 60), par):
+                        part.violation(f"{clause}:{[t for t, _v in tokens]}:{par}", msg,
+                                       {"kind": "spelled", "tokens": [list(t) for t in tokens],
+                                        "par": par})
+                    part.count("valid_cases")
+                    part.count("spelled_cases")
+    return part
+
+
 def check_invalid(case):
     plot_utils = _lib()
     desc = f"vb_scale{tuple(case)!r}"
@@ -221,6 +265,7 @@ def run(ctx):
     near = [(m_x, 0, w, h) for m_x in (0, -5) for (w, h) in NEAR_SHAPES]
     jobs += [(chunk, NEAR_DOCS) for chunk in core.split(near, 12)]
     part = core.fan_out(ctx, _chunk, jobs)
+    part.merge(core.fan_out(ctx, _spelled_chunk, [[sp] for sp in SPELLED]))
     for case in INVALID:
         for clause, msg in check_invalid(case):
             part.violation(f"{clause}:{case!r}", msg, {"kind": "invalid", "case": list(case)})
@@ -237,7 +282,8 @@ def run(ctx):
                 "{meet, slice, absent} x {defer, not} with spelling/separator variants rotated "
                 "over the product, plus absent/empty preserveAspectRatio and textual sizes; a family "
                 "of pages and viewBoxes whose aspect ratios differ by 1e-7..1e-3 relative or not "
-                "at all (24 viewBoxes x 6 pages); 21 "
+                "at all (24 viewBoxes x 6 pages); viewBox numbers in every SVG spelling (leading "
+                "'.', '+', trailing '.', exponents) against the canonical spelling; 21 "
                 "invalid inputs; non-trivial = uniform-scale cases whose aspect ratios differ "
                 "(alignment and meet/slice change the answer)",
         "samples": core.rotate(part.samples, ctx.seed, 4),
@@ -251,6 +297,9 @@ def run(ctx):
 
 
 def replay(case):
+    if case["kind"] == "spelled":
+        return [m for _c, m in check_spelled(tuple(tuple(t) for t in case["tokens"]), (100, 60),
+                                             case["par"])]
     if case["kind"] == "invalid":
         return [m for _c, m in check_invalid(tuple(case["case"]))]
     vbox, doc = tuple(case["vbox"]), tuple(case["doc"])
